@@ -13,6 +13,7 @@
 #include <cstdlib>
 #include <cstring>
 #include <csetjmp>
+#include <clocale>
 #include <string>
 #include <vector>
 #include <map>
@@ -58,6 +59,7 @@ struct Op {
 struct Plan {
     string prop = "C13", cfg = "nofault";
     uint64_t seed = 0, fill = 1; int nobj = 1; long long index = -1;
+    string locale = "C";    // process locale while the plan runs
     int amode = 0;      // how the caller holds the address: 0 exact-size fresh block per call, 1 one reused buffer per object, 2 one reused buffer for all objects
     vector<Op> ops;
 };
@@ -74,7 +76,7 @@ static sj::Value op_to_json(const Op &op) {
 static sj::Value plan_to_json(const Plan &p) {
     sj::Value j = sj::Value::object();
     j.set("prop", p.prop); j.set("cfg", p.cfg); j.set("seed", (long long)p.seed); j.set("index", p.index);
-    j.set("fill", (long long)p.fill); j.set("nobj", p.nobj); j.set("amode", p.amode);
+    j.set("fill", (long long)p.fill); j.set("nobj", p.nobj); j.set("amode", p.amode); j.set("locale", p.locale);
     sj::Value a = sj::Value::array();
     for (auto &op : p.ops) a.push(op_to_json(op));
     j.set("ops", a);
@@ -84,7 +86,7 @@ static Plan plan_from_json(const sj::Value &j) {
     Plan p;
     p.prop = j.gets("prop", "C13"); p.cfg = j.gets("cfg", "nofault");
     p.seed = (uint64_t)j.geti("seed"); p.fill = (uint64_t)j.geti("fill", 1); p.nobj = (int)j.geti("nobj", 1);
-    p.index = j.geti("index", -1); p.amode = (int)j.geti("amode", 0);
+    p.index = j.geti("index", -1); p.amode = (int)j.geti("amode", 0); p.locale = j.gets("locale", "C");
     if (p.nobj < 1) p.nobj = 1;
     if (p.nobj > 8) p.nobj = 8;
     const sj::Value *ops = j.get("ops");
@@ -308,12 +310,17 @@ static Plan gen_history(const string &prop, const string &cfg, uint64_t seed, lo
     sim_rng w = sim_derive(rs, 1), f = sim_derive(rs, 2);
     p.fill = sim_mix64(rs ^ 0xF1);
     p.nobj = 1 + (int)sim_below(&w, 3);
+    if (sim_below(&w, 25) == 0) p.nobj = 4 + (int)sim_below(&w, 5);      // many objects alive at once (fixed-size registries)
     p.amode = (int)sim_below(&w, 3);
+    p.locale = sim_below(&w, 4) == 0 ? "C.UTF-8" : "C";
     int len;
     unsigned lc = (unsigned)sim_below(&w, 100);
     if (lc < 35) len = 1 + (int)sim_below(&w, 8);
     else if (lc < 75) len = 6 + (int)sim_below(&w, 30);
     else len = 30 + (int)sim_below(&w, 171);
+    // rare long histories: counters that wrap or thresholds that trip after a few hundred calls (thorough: after 2^16)
+    if (sim_below(&w, 150) == 0) len = 260 + (int)sim_below(&w, 500);
+    if (cfg.size() > 5 && cfg.compare(cfg.size() - 5, 5, "-long") == 0) len = 65600 + (int)sim_below(&w, 600);
     int npool = 2 + (int)sim_below(&w, 39);
     if (sim_below(&w, 4) == 0) npool = 2 + (int)sim_below(&w, 3);
     vector<string> pool = draw_pool(w, prop, npool);
@@ -324,7 +331,7 @@ static Plan gen_history(const string &prop, const string &cfg, uint64_t seed, lo
     wt[READ_RESULT] = (unsigned)sim_below(&w, 5); wt[FREE_INIT] = (unsigned)sim_below(&w, 4);
     unsigned tot = 0; for (unsigned x : wt) tot += x;
     unsigned p_invalid = (unsigned)sim_below(&w, 30);
-    bool faults = (cfg == "fault" || cfg == "lockstep-fault" || cfg == "ctxfault");
+    bool faults = (cfg == "fault" || cfg == "lockstep-fault" || cfg == "ctxfault" || cfg == "fault-long");
     // C13/C18 model a *deterministic* converter: in a given plan the conversion of a given address either always works
     // or always fails with one code and one buffer behaviour ("in this world that domain does not convert").  The outcome
     // is then still a function of (mode, tld_check, allow_tld, address), which is what these properties are about;
@@ -704,6 +711,7 @@ struct Exec {
     }
 
     void run() {
+        if (!setlocale(LC_ALL, plan.locale.c_str())) setlocale(LC_ALL, "C");
         sim_ledger_reset(plan.fill);
         sim_ctx_reset();
         sim_conv_begin(0, 0, 0);
@@ -1018,7 +1026,7 @@ static bool run_plan(const Plan &p, bool want_log, vector<Viol> &viols, uint64_t
         string oj; { sj::Value a = sj::Value::array(); for (auto &op : p.ops) a.push(op_to_json(op)); oj = sj::dump(a) + std::to_string(p.nobj); }
         ph = sim_fnv1a(SIM_FNV_INIT, oj.data(), oj.size());
         ST.plan_hashes.insert(ph);
-        bool faultcfg = (p.cfg == "fault" || p.cfg == "single" || p.cfg == "multi" || p.cfg == "lockstep-fault");
+        bool faultcfg = (p.cfg == "fault" || p.cfg == "single" || p.cfg == "multi" || p.cfg == "lockstep-fault" || p.cfg == "fault-long");
         if (p.cfg == "small" || p.cfg == "corpus") faultcfg = false;
         bool sfcfg = (p.cfg == "ctxfault");
         if (ex->any_state_change && ex->nontrivial_cmp && (!faultcfg || ex->any_fired) && (!sfcfg || ex->any_sf_fired)) ST.nontrivial.insert(ph);
